@@ -2,9 +2,10 @@
 # Re-confirms every stored seeded change against /repo's HEAD and re-runs the quick checks that are expected to catch it.
 cd /verif
 declare -A extra=( [C12-2]="C01" [C06-2]="C10" [C16-3]="C10" [C11-2]="C07" [C07-2]="C11" [C08-3]="C17" [C08-2]="C05" [C15-2]="C14" [C14-2]="C13" [C15-3]="C13"
-  [C04-4]="C02" [C01-5]="C08" [C03-5]="C07" [C06-5]="C02" [C09-4]="C18" [C11-5]="C07" [C12-4]="C10" [C12-5]="C17" [C13-4]="C14" [C14-5]="C15" [C15-4]="C13" [C15-5]="C13" [C07-5]="C11" )
-for d in seeded/*/; do
-  id=$(basename $d); prop=${id%-*}
+  [C04-4]="C02" [C01-5]="C08" [C03-5]="C07" [C06-5]="C02" [C09-4]="C18" [C11-5]="C07" [C12-4]="C10" [C12-5]="C17" [C13-4]="C14" [C14-5]="C15" [C15-4]="C13" [C15-5]="C13" [C07-5]="C11"
+  [C06-7]="C07" [C07-6]="C03" [C08-6]="C05" [C10-7]="C17" [C11-6]="C07" [C13-7]="C14" [C15-7]="C18" [C18-6]="C05" [C19-7]="C02" )
+one() {
+  id=$1; prop=${id%-*}
   race=""; case $prop in C18) race=1;; esac
   out=$(SEED_RACE=$race tools/seedconfirm.py seeded/$id $id $prop $prop ${extra[$id]:-} 2>&1 | python3 -c "
 import sys,json
@@ -13,4 +14,6 @@ try:
 except Exception as e:
     print('tool-error', e)")
   echo "$id $out"
-done
+}
+if [ -n "$1" ]; then one "$1"; exit; fi
+ls seeded | xargs -P ${SWEEP_JOBS:-4} -n 1 tools/seedsweep.sh
